@@ -170,7 +170,11 @@ theorem eval_rel (h : MapRel env R) : ∀ f s p, R s (eval env f s p).1 := by
         h.loadAndRecord_rel _ _ _ (fun s => ih s _)
       generalize loadAndRecord env _ key s' = r at hf ⊢
       obtain ⟨s1, o⟩ := r
-      exact h.trans hf (h.cont_rel o s1 _ _ (fun r s => ih s (k r)))
+      cases o with
+      | ok v => exact h.trans hf (h.trans (b := s1.handOut key.ty) (h.of_map_eq rfl) (ih _ _))
+      | err e => exact h.trans hf (h.cont_rel _ s1 _ _ (fun r s => ih s (k r)))
+      | panicked => exact h.trans hf (h.cont_rel _ s1 _ _ (fun r s => ih s (k r)))
+      | diverged => exact h.trans hf (h.cont_rel _ s1 _ _ (fun r s => ih s (k r)))
     | load key k =>
       simp only [eval]
       refine h.trans (b := s.record (recordsAsset (env.types key.ty).hot env.hasReloader) (.asset key))
@@ -297,7 +301,7 @@ theorem reloadUntyped_cases (env : Env) (fuel : Nat) (s : St) (key : Key) (c : C
     ∃ s1 : St, s.Le s1 ∧ (∀ P, NewCellsSat env P → Added P s s1) ∧
       ((∃ o, o.wrote = false ∧ reloadUntyped env fuel s key = (s1, o)) ∨
        (∃ v deps, c.dyn = true ∧ (reloadEval env fuel s key).2.1 = .ok v ∧
-          reloadUntyped env fuel s key = (s1.setCell key (c.written v), .done (some (deps, true))))) := by
+          reloadUntyped env fuel s key = ((s1.setCell key (c.written v)).swapValue key.ty c.addr, .done (some (deps, true))))) := by
   unfold reloadUntyped
   simp only [hc]
   by_cases hskip : (reloadSkipsStatic && !c.dyn) = true
@@ -316,13 +320,16 @@ theorem reloadUntyped_cases (env : Env) (fuel : Nat) (s : St) (key : Key) (c : C
     have hle' : s.Le { s1 with recs := [] } := hle.trans (St.Le.of_map_eq rfl)
     have hadd' : ∀ P, NewCellsSat env P → Added P s { s1 with recs := [] } :=
       fun P hP => (hadd P hP).trans (Added.of_map_eq rfl)
-    refine ⟨{ s1 with recs := [] }, hle', hadd', ?_⟩
     cases o with
     | ok v =>
       simp only []
       by_cases hd : c.dyn = true
-      case neg => simp only [hd]; exact Or.inl ⟨_, rfl, rfl⟩
+      case neg =>
+        simp only [hd]
+        exact ⟨St.handOut { s1 with recs := [] } key.ty, hle'.trans (St.Le.of_map_eq rfl),
+          fun P hP => (hadd' P hP).trans (Added.of_map_eq rfl), Or.inl ⟨_, rfl, rfl⟩⟩
       case pos =>
+        refine ⟨{ s1 with recs := [] }, hle', hadd', ?_⟩
         simp only [hd, if_true]
         right
         have hl : St.lookup { s1 with recs := [] } key = some c := hle' key c hc
@@ -330,14 +337,16 @@ theorem reloadUntyped_cases (env : Env) (fuel : Nat) (s : St) (key : Key) (c : C
         simp only [hl]
         rfl
     | err e =>
+      refine ⟨{ s1 with recs := [] }, hle', hadd', ?_⟩
       simp only []
       left
       cases failedReloadKeepsNewDeps <;> exact ⟨_, rfl, rfl⟩
     | panicked =>
+      refine ⟨{ s1 with recs := [] }, hle', hadd', ?_⟩
       simp only []
       left
       cases reloadCatchesPanic <;> exact ⟨_, rfl, rfl⟩
-    | diverged => exact Or.inl ⟨_, rfl, rfl⟩
+    | diverged => exact ⟨{ s1 with recs := [] }, hle', hadd', Or.inl ⟨_, rfl, rfl⟩⟩
 
 theorem reloadUntyped_absent (env : Env) (fuel : Nat) (s : St) (key : Key) (h : s.lookup key = none) :
     reloadUntyped env fuel s key = (s, .done none) := by
@@ -352,7 +361,7 @@ theorem reloadUntyped_other (env : Env) (fuel : Nat) (s : St) (key : Key) (k : K
     obtain ⟨s1, hle, _, hcase⟩ := reloadUntyped_cases env fuel s key c0 hc
     rcases hcase with ⟨o, _, e⟩ | ⟨v, deps, _, _, e⟩
     · rw [e]; exact hle k c h
-    · rw [e]; simp only []; rw [St.setCell_lookup_other _ _ _ _ hk]; exact hle k c h
+    · rw [e]; simp only []; rw [St.swapValue_lookup, St.setCell_lookup_other _ _ _ _ hk]; exact hle k c h
 
 /-- What `reload_untyped` adds (keys absent before) was created by `newCell`. -/
 theorem reloadUntyped_added (env : Env) (fuel : Nat) (s : St) (key : Key) (P) (hP : NewCellsSat env P) (k : Key) (c : Cell)
@@ -367,7 +376,7 @@ theorem reloadUntyped_added (env : Env) (fuel : Nat) (s : St) (key : Key) (P) (h
       rcases hadd P hP k c h with h' | h'
       · rw [habs] at h'; cases h'
       · exact h'
-    · rw [e] at h; simp only [] at h; rw [St.setCell_lookup_other _ _ _ _ hk] at h
+    · rw [e] at h; simp only [] at h; rw [St.swapValue_lookup, St.setCell_lookup_other _ _ _ _ hk] at h
       rcases hadd P hP k c h with h' | h'
       · rw [habs] at h'; cases h'
       · exact h'
@@ -442,7 +451,7 @@ theorem reloadUntyped_ev (env : Env) (fuel : Nat) (s : St) (key : Key) : s.Ev (r
         exact ⟨c0.written v, St.setCell_lookup_self _ _ _ c0 (hle k c0 hc), Cell.ev_written c0 v hd⟩
       · refine ⟨c, ?_, Cell.Ev.refl c⟩
         simp only []
-        rw [St.setCell_lookup_other _ _ _ _ hk]; exact hle k c h
+        rw [St.swapValue_lookup, St.setCell_lookup_other _ _ _ _ hk]; exact hle k c h
 
 /-! ## `reloadAll` -/
 
@@ -541,7 +550,7 @@ theorem reloadUntyped_ridOf_le (env : Env) (fuel : Nat) (s : St) (key : Key) (k 
         have : c = c' := by simpa using h
         rw [← this]; exact Nat.le_succ _
       · rw [e] at h; simp only [] at h
-        rw [St.setCell_lookup_self _ _ _ c (hle k c hk)] at h
+        rw [St.swapValue_lookup, St.setCell_lookup_self _ _ _ c (hle k c hk)] at h
         have : c.written v = c' := by simpa using h
         rw [← this]; exact Nat.le_refl _
     · rw [reloadUntyped_other env fuel s key k c hkk hk] at h
@@ -746,11 +755,11 @@ theorem step_keeps (env : Env) (fuel : Nat) (s : St) (op : Op) (k : Key) (c : Ce
   | remove key =>
     have hk : ¬ k = key := by
       intro e; simp [Op.removes, e] at hop
-    simp only [step]; rw [lookup_removed]; simp [hk, h]
+    simp only [step, St.release_lookup]; rw [lookup_removed]; simp [hk, h]
   | take key =>
     have hk : ¬ k = key := by
       intro e; simp [Op.removes, e] at hop
-    simp only [step]; rw [lookup_removed]; simp [hk, h]
+    simp only [step, St.release_lookup]; rw [lookup_removed]; simp [hk, h]
   | clear => simp [Op.removes] at hop
 
 /-- Every cell stored after an API operation was stored before (same key, unchanged) or was created
@@ -771,13 +780,13 @@ theorem step_added (env : Env) (fuel : Nat) (s : St) (op : Op) (P) (hP : EnvCell
       exact (Added.ins_cell s key (insertedCell env key v s.next) (hP.2 key v s.next)).trans (Added.of_map_eq rfl)
   | remove key =>
     intro k c h
-    simp only [step] at h; rw [lookup_removed] at h
+    simp only [step, St.release_lookup] at h; rw [lookup_removed] at h
     by_cases hk : k = key
     · simp [hk] at h
     · simp only [hk, if_false] at h; exact Or.inl h
   | take key =>
     intro k c h
-    simp only [step] at h; rw [lookup_removed] at h
+    simp only [step, St.release_lookup] at h; rw [lookup_removed] at h
     by_cases hk : k = key
     · simp [hk] at h
     · simp only [hk, if_false] at h; exact Or.inl h
@@ -811,10 +820,10 @@ theorem reloadUntyped_all (env : Env) (fuel : Nat) (s : St) (key : Key) (I) (hw 
       simp only [] at h
       by_cases hk : k = key
       · subst hk
-        rw [St.setCell_lookup_self _ _ _ c0 (hle k c0 hc)] at h
+        rw [St.swapValue_lookup, St.setCell_lookup_self _ _ _ c0 (hle k c0 hc)] at h
         have : c0.written v = c := by simpa using h
         rw [← this]; exact hw k c0 v (hs k c0 hc) hd
-      · rw [St.setCell_lookup_other _ _ _ _ hk] at h
+      · rw [St.swapValue_lookup, St.setCell_lookup_other _ _ _ _ hk] at h
         exact h1 k c h
 
 theorem allRel_passRel (env : Env) (fuel : Nat) (I) (hw : WriteStable I) (hn : NewCellsSat env I) :
